@@ -8,7 +8,7 @@
        the code as found, preservation for the repaired code on an exhaustive bounded family. *)
 From PV Require Import Lib.Py Spec.IRSyntax Spec.CfgSpec Spec.IRWf.
 From PV Require Import Model.IRWfCheck Model.Verify Model.IRStore.
-From PV Require Import Proofs.C03_wf Proofs.C03_verify Proofs.C03_store Proofs.C03_store_inv Proofs.C03_refs_inv.
+From PV Require Import Proofs.C03_wf Proofs.C03_verify Proofs.C03_store Proofs.C03_store_inv Proofs.C03_refs_inv Proofs.C03_complete.
 From Coq Require Import String.
 Open Scope nat_scope.
 Open Scope string_scope.
@@ -76,6 +76,25 @@ Theorem c03_verifier_fixed_rejects_gap_witnesses :
   verify_function v_all_fixed (mod_of w0) w0 w0_st = Ok tt.
 Proof. exact witnesses_rejected. Qed.
 Print Assumptions c03_verifier_fixed_rejects_gap_witnesses.
+
+(* ---- (2c) completeness on the phi-free fragment: what the verified checker accepts, the verifier
+   accepts (no false alarm), for every repair configuration, with the bookkeeping derived from the
+   instructions.  Excluded: functions containing phi instructions. *)
+Theorem c03_verifier_complete_partial : forall vx m f,
+  wf_function_b m f = true -> phi_free f = true -> verify_function vx m f (st_of f) = Ok tt.
+Proof. exact verifier_complete_phi_free. Qed.
+Print Assumptions c03_verifier_complete_partial.
+
+(* checker accepts => verifier accepts => (repaired verifier + representation invariants) well-formed *)
+Theorem c03_verifier_iff_wf_partial : forall m f,
+  phi_free f = true ->
+  (wf_function_b m f = true -> forall vx, verify_function vx m f (st_of f) = Ok tt) /\
+  (repr_ok m f -> verify_function v_all_fixed m f (st_of f) = Ok tt -> wf_function m f).
+Proof. exact verifier_iff_wf_partial. Qed.
+Print Assumptions c03_verifier_iff_wf_partial.
+
+Example c03_complete_nonvacuous : wf_function_b (mod_of w5) w5 = true /\ phi_free w5 = true.
+Proof. exact w5_ok. Qed.
 
 (* ---- (3) bookkeeping mutators, code as found *)
 Theorem c03_replace_use_refuted :
